@@ -72,6 +72,7 @@ type Ctx struct {
 	witnesses   map[string]T
 	epochTop    map[int]T
 	nepochs     int
+	ghostNames  map[string]bool
 }
 
 type closure struct {
@@ -131,7 +132,7 @@ type edgeInB struct {
 func newCtx(P *Program, prop string) *Ctx {
 	c := &Ctx{P: P, sc: newScript(), heapSort: map[string]string{}, pseudoKinds: map[string]int{}, factsDone: map[string]bool{},
 		iterSort: map[iterKey]string{}, lits: map[string]string{}, prop: prop, trusted: map[string]bool{}, closures: map[T]*closure{},
-		callOrd: map[string]int{}, oblNames: map[string]int{}, loopInfos: map[string]*loopInfo{}, keyLeaf: map[string]Leaf{}, witnesses: map[string]T{}, epochTop: map[int]T{}}
+		callOrd: map[string]int{}, oblNames: map[string]int{}, loopInfos: map[string]*loopInfo{}, keyLeaf: map[string]Leaf{}, witnesses: map[string]T{}, epochTop: map[int]T{}, ghostNames: map[string]bool{}}
 	c.sc.raw(prelude)
 	return c
 }
@@ -828,13 +829,19 @@ func (c *Ctx) havoc(st *State, locs []ModLoc, ntop T) {
 			l = m.Leaf
 			known = m.HasLeaf
 		}
+		guardSet := func(nh T) {
+			if m.Guard != "" && m.Guard != "true" {
+				nh = ite(m.Guard, nh, h)
+			}
+			c.heapSet(st, m.Key, m.Sort, nh)
+		}
 		if m.HasIdx {
 			_, leaf := innerSort(inner)
 			v := c.sc.fresh("hv."+smtSym(m.Key), leaf)
 			if known {
 				c.sc.assume(c.leafFact(l, v, ntop))
 			}
-			c.heapSet(st, m.Key, m.Sort, sto(h, m.Ref, sto(sel(h, m.Ref), m.Idx, v)))
+			guardSet(sto(h, m.Ref, sto(sel(h, m.Ref), m.Idx, v)))
 		} else {
 			v := c.sc.fresh("hv."+smtSym(m.Key), inner)
 			if known {
@@ -848,7 +855,7 @@ func (c *Ctx) havoc(st *State, locs []ModLoc, ntop T) {
 					c.sc.assume(c.leafFact(l, v, ntop))
 				}
 			}
-			c.heapSet(st, m.Key, m.Sort, sto(h, m.Ref, v))
+			guardSet(sto(h, m.Ref, v))
 		}
 	}
 }
@@ -910,10 +917,14 @@ func (c *Ctx) frameObligations(name string, from, to *State, locs []ModLoc, reac
 				excl = append(excl, not(m.inSet(r)))
 				continue
 			}
+			g := m.Guard
+			if g == "" {
+				g = "true"
+			}
 			if m.HasIdx && twoLevel {
-				excl = append(excl, not(and(eq(r, m.Ref), eq(j, m.Idx))))
+				excl = append(excl, not(and(g, eq(r, m.Ref), eq(j, m.Idx))))
 			} else {
-				excl = append(excl, not(eq(r, m.Ref)))
+				excl = append(excl, not(and(g, eq(r, m.Ref))))
 			}
 		}
 		c.declRoot()
@@ -953,6 +964,7 @@ func (c *Ctx) frameObligations(name string, from, to *State, locs []ModLoc, reac
 }
 
 func (c *Ctx) ghostGet(st *State, k string) T {
+	c.ghostNames[k] = true
 	if t, ok := st.ghost[k]; ok {
 		return t
 	}
